@@ -153,6 +153,8 @@ class Client(base_client.BaseClient):
                     'connect_error', n,
                     exc.args[1] if len(exc.args) > 1 else exc.args[0])
             if retry:  # pragma: no cover
+                if self._reconnect_abort is not None:
+                    self._reconnect_abort.clear()
                 self._handle_reconnect()
                 if self.eio.state == 'connected':
                     return
@@ -469,7 +471,6 @@ class Client(base_client.BaseClient):
     def _handle_reconnect(self):
         if self._reconnect_abort is None:  # pragma: no cover
             self._reconnect_abort = self.eio.create_event()
-        self._reconnect_abort.clear()
         base_client.reconnecting_clients.append(self)
         attempt_count = 0
         current_delay = self.reconnection_delay
@@ -620,6 +621,11 @@ class Client(base_client.BaseClient):
         self._binary_packet = None
         self.sid = None
         if will_reconnect and not self._reconnect_task:
+            # (the effort can be aborted from now on, also before its task
+            # has executed its first statement)
+            if self._reconnect_abort is None:
+                self._reconnect_abort = self.eio.create_event()
+            self._reconnect_abort.clear()
             self._reconnect_task = self.start_background_task(
                 self._handle_reconnect)
         if error is not None:
